@@ -44,6 +44,7 @@ class DCConfig:
     server_tokens: t.Sequence[bytes] = (b"SRV1", b"")
     reply_align: int = 16
     reply_pad_fill: int = 0xBB
+    reply_delay: float = 0.0  # seconds a (slow but conforming) DC takes before it answers a GetKey request
     other_op_reply: t.Optional[bytes] = None  # if set: a request whose stub is not a GetKey request is answered with this (sealed) stub instead of a fault
     reply_fragment_cuts: t.Optional[t.Sequence[int]] = None  # stub offsets at which the GetKey reply is split into individually sealed fragments
     reply_pad_exact: t.Optional[int] = None  # force an auth pad length 0..255 regardless of alignment
@@ -367,6 +368,10 @@ class Conn:
             self.dc.getkeys.append(rec)
         if cfg.gate:
             cfg.gate(rec)
+        if cfg.reply_delay:
+            import time as _time
+
+            _time.sleep(cfg.reply_delay)
         hresult = cfg.hresult
         try:
             env_bytes, env = self.dc.envelope(req)
